@@ -459,12 +459,17 @@ def _find_closing_brace(string):
     ('two closing}', ' braces} and some text')
     >>> _find_closing_brace('more {nested{}}{braces}} and the rest}')
     ('more {nested{}}{braces}}', ' and the rest}')
+    >>> _find_closing_brace('never {closed} and the rest')
+    ('never {closed} and the rest', '')
     """
     up_to_brace = []
     brace_level = 1
     while brace_level >= 1:
         next_brace = BRACE_RE.search(string)
         if not next_brace:
+            # the group is never closed: the rest of the string belongs to it
+            up_to_brace.append(string)
+            string = ''
             break
 
         up_to_brace.append(string[:next_brace.end()])
@@ -477,8 +482,6 @@ def _find_closing_brace(string):
         else:
             raise ValueError(next_brace.group())
 
-    if not up_to_brace:
-        up_to_brace, string = [string], ''
     return ''.join(up_to_brace), string
 
 
